@@ -1,16 +1,21 @@
 """C12 -- cardinality limits and attribute filters conserve every measurement (Cardinality.tla).
 
 model       : CardinalityH.tla -- TLC checks, for every history up to MaxSteps over every configuration
-              of the families below, that the operational model (CardModel.tla: views -> streams ->
-              aggregators, filter, limiter, delta/cumulative collection) equals the declarative statement
+              of the families below, that the operational model (CardModel.tla: view selection criteria
+              (name exact / wildcards * and ?, kind, unit, description, scope) -> streams -> stream
+              identity (case-insensitive name, description, unit, kind, number, scope) -> aggregators,
+              filter, limiter, delta/cumulative collection) equals the declarative statement
               (first L-1 distinct filtered sets keep identity, the rest is one overflow point, counts
-              and sums conserved, at most L points, drop silent).
+              and sums conserved, at most L points, drop silent; an instrument feeds exactly one
+              aggregator per distinct identity among the streams of its matching views).
 spec -> code: Cardinality.tla explored exhaustively, every edge printed; harness/c12 replays each edge
               through the public API (MeterProvider + ManualReader + views, OTEL_GO_X_CARDINALITY_LIMIT
               set before the provider is built) on a fresh provider and compares every collection and a
               final probing collection with the spec's `peek`.
-code -> spec: harness/c12 runs seeded random pipelines (1-3 instruments of 7 kinds, 0-3 views, limit up
-              to 16, 20-200 distinct attribute sets, 5 cycles, adversarial arrival order); TLC validates
+code -> spec: harness/c12 runs seeded random pipelines (1-3 instruments of 7 kinds with units, descriptions,
+              scopes and case-variant / same-name siblings, 0-4 views with wildcard patterns, unit / kind /
+              description / scope criteria, renames to the same name / a case variant / another name, unit
+              and description masks, limit up to 16, 20-200 distinct attribute sets, 5 cycles); TLC validates
               every collection against CardModel (Trace_Cardinality.tla) and re-evaluates bound /
               conservation directly on the real observations.
 """
@@ -132,9 +137,10 @@ def family_select(tier):
 
     # three instruments differing in name / unit / kind
     W1 = [inst("req", "counter", unit="ms"), inst("rex", "counter", unit="s"), inst("reqs", "histogram", unit="ms")]
-    patterns = ["req", "*", "re*", "re?"]          # exact, everything, prefix wildcard, exactly-one-character wildcard
+    # exact, everything, prefix wildcard, exactly-one-character wildcard, suffix wildcard, both wildcards
+    patterns = ["req", "*", "re*", "re?", "*s", "r?q*"]
     if th:
-        patterns += ["", "req?", "r?q*", "*s", "?e*", "r*q", "???", "r*x"]
+        patterns += ["", "req?", "?e*", "r*q", "???", "r*x"]
     units = ["", "ms", "s"]                         # no unit criterion, the unit of req/reqs, the unit of rex
     kinds = ["", "counter", "histogram"]
     if th:
@@ -206,6 +212,11 @@ def family_ident(tier):
         ([inst("Obs", "oupdown"), inst("OBS", "oupdown")], [view("*", keep=["a"]), view("", mkind="oupdown", keep=["a"])]),
         ([inst("G", "gauge", "f")], [view("G"), view("?"), view("zz", agg="drop")]),
         ([inst("G", "ogauge")], [view("G", name="g2"), view("*", mkind="ogauge"), view("G", name="G2")]),
+        ([inst("req", "counter", unit="ms"), inst("req", "counter", unit="s")], []),    # same name and case, other unit
+        ([R], [view("*"), view("Req", name="second"), view("R*", unit="s"), view("R?q", desc="d4")]),  # four distinct streams
+        # a dropping view that also renames / masks: still nothing, and no default stream either
+        ([R, inst("rex", "counter", unit="ms")], [view("Req", name="gone", agg="drop")]),
+        ([R], [view("R*", unit="s", desc="d2", agg="drop"), view("Req", munit="ms", name="kept")]),
     ]
     for j, (ins, vs) in enumerate(more):
         for t in (("delta", "cumulative") if th else (("delta", "cumulative")[j % 2],)):
@@ -228,31 +239,45 @@ def families(tier):
         dict(name="views", configs=family_views(tier), sets=SETS_VIEWS_THOROUGH if th else SETS_VIEWS,
              steps=4, hsteps=4),
         dict(name="select", configs=family_select(tier), sets=SETS_VIEWS if th else SETS_SELECT,
-             steps=2, hsteps=3 if th else 2),
+             steps=2, hsteps=2),
         dict(name="ident", configs=family_ident(tier), sets=SETS_VIEWS,
              steps=4 if th else 3, hsteps=4 if th else 3),
     ]
 
 
 # ---------------------------------------------------------------------------- classification
+def view_sig(v):
+    """class of a view: its action and which kinds of selection criteria it uses (same as harness viewSig)"""
+    s = "agg=" + v["agg"]
+    if v["filt"]["on"]:
+        s += ",filter"
+    if v["name"]:
+        s += ",rename"
+    if v.get("unit") or v.get("desc"):
+        s += ",mask"
+    if "*" in v["mname"] or "?" in v["mname"]:
+        s += ",wild"
+    if v.get("munit"):
+        s += ",unit"
+    if v["mkind"]:
+        s += ",kind"
+    if v.get("mdesc"):
+        s += ",desc"
+    if v.get("msn") or v.get("msv") or v.get("msu"):
+        s += ",scope"
+    return s
+
+
 def cfg_sig(c):
     c = c or {}
-    vs = []
-    for v in c.get("views", []):
-        s = "agg=" + v["agg"]
-        if v["filt"]["on"]:
-            s += ",filter"
-        if v["name"]:
-            s += ",rename"
-        vs.append(s)
     return {"limit": c.get("limit"), "temp": c.get("temp"), "kinds": ",".join(i["kind"] for i in c.get("insts", [])),
-            "views": ";".join(vs)}
+            "views": ";".join(view_sig(v) for v in c.get("views", []))}
 
 
 def classify(want, got, limit):
     """which clause of the statement the observed collection breaks (for reports / known findings)"""
     def key(m):
-        return (m["name"], m["num"])
+        return tuple(m.get(k, "") for k in ("sn", "sv", "su", "name", "desc", "unit", "num", "agg"))
 
     def ptkey(p):
         return (p["ovf"], json.dumps(p["attrs"], sort_keys=True))
@@ -268,26 +293,31 @@ def classify(want, got, limit):
         return "unexpected-metric"
     if set(W) - set(G):
         return "missing-metric"
+    whys = set()
     for k, w in W.items():
         g = G[k]
-        if (w["agg"], w["temp"], w["mono"]) != (g["agg"], g["temp"], g["mono"]):
+        if (w["temp"], w["mono"]) != (g["temp"], g["mono"]):
             return "metric-shape"
         wp = {ptkey(p): p for p in w["pts"]}
         gks = [ptkey(p) for p in g["pts"]]
         if len(set(gks)) != len(gks):
             return "duplicate-point"
         gp = {ptkey(p): p for p in g["pts"]}
+        tot = sum(p["s"] for p in w["pts"]) != sum(p["s"] for p in g["pts"]) or \
+            sum(p["n"] for p in w["pts"]) != sum(p["n"] for p in g["pts"])
         if set(wp) != set(gp):
-            if sum(p["s"] for p in w["pts"]) != sum(p["s"] for p in g["pts"]) or \
-               sum(p["n"] for p in w["pts"]) != sum(p["n"] for p in g["pts"]):
-                return "identity+total"
-            return "identity"
+            return "identity+total" if tot else "identity"
         for pk in wp:
             if wp[pk] != gp[pk]:
-                if sum(p["s"] for p in w["pts"]) != sum(p["s"] for p in g["pts"]) or \
-                   sum(p["n"] for p in w["pts"]) != sum(p["n"] for p in g["pts"]):
-                    return "value+total"
-                return "value"
+                only_s = all(wp[pk][f] == gp[pk][f] for f in ("n", "l", "mn", "mx"))
+                if only_s and wp[pk]["s"] == 0 and w["agg"] in ("hist", "expo"):
+                    # a histogram whose sum is not collected (the model reports 0) carries a sum
+                    whys.add("uncollected-histogram-sum-not-zero")
+                else:
+                    whys.add("value+total" if tot else "value")
+    for w in ("value+total", "value", "uncollected-histogram-sum-not-zero"):
+        if w in whys:
+            return w
     return "other"
 
 
@@ -302,12 +332,12 @@ def run(ctx):
             counters[k] = counters.get(k, 0) + v
 
     keys = ["a", "b"]
-    first = True
     edges_total = 0
     only = [x for x in os.environ.get("C12_FAMILIES", "").split(",") if x]  # debugging aid: restrict the families
     for fam in families(ctx.tier):
         if only and fam["name"] not in only:
             continue
+        first = fam["name"] == "limit"  # the family whose histories are deep enough to take every action
         d = {"KEYS": tla_set(keys), "CONFIGS": tla(fam["configs"]), "SETS": tla_set(fam["sets"])}
         # ---- the statement on the model, every history (no edges, all workers)
         dh = dict(d, MAXSTEPS=fam["hsteps"])
@@ -324,7 +354,6 @@ def run(ctx):
             ctx.extra["zero_coverage"] = r["zero_cov"]
             if r["zero_cov"]:
                 ctx.note_inconclusive("TLC coverage: actions never taken: %s" % r["zero_cov"])
-        first = False
         reps = [0, 1, 2, 3, 4, 5] if thorough else [ctx.seed % 30]
         for rep in reps:
             out = os.path.join(ctx.work, "replay-%s-%d.json" % (fam["name"], rep))
@@ -341,7 +370,7 @@ def run(ctx):
                 ops = (m.get("path") or []) + ([m["act"]] if m.get("act") else [])
                 cf = ops[0].get("cfg") if ops and isinstance(ops[0], dict) else None
                 why = "panic" if m["kind"] == "panic" else classify(m.get("want"), m.get("got"), (cf or {}).get("limit"))
-                sig = dict(cfg_sig(cf) if cf else c, dir="replay", why=why, at=m["kind"])
+                sig = dict(cfg_sig(cf) if cf else c, dir="replay", why=why, at=m["kind"], reuse=(rep % 2 == 1))
                 ctx.violation(sig, replay={"ops": ops, "rep": rep, "want": m.get("want"), "got": m.get("got"),
                                            "detail": m.get("detail"), "family": fam["name"]})
             for s in res["inconclusive"]:
@@ -365,12 +394,17 @@ def run(ctx):
     ctx.add_samples(res["samples"][:1])
     lines = None
     reported = set()
+    # scenarios the trace spec left unjudged because the configuration is outside the modelled domain
+    skipped = sum(1 for ln in open(os.path.join(ctx.work, "tlc-trace-MC_Trace_Cardinality", "tlc.out"), errors="replace")
+                  if ln.startswith('"SKIP '))
+    ctx.extra["random_scenarios_outside_domain"] = skipped
+    ctx.traces_validated -= skipped
+    if skipped * 10 > n:
+        ctx.note_inconclusive("random driver: %d of %d scenarios outside the modelled domain (generator filter and "
+                              "InDomain disagree)" % (skipped, n))
     for v in viols:
         if lines is None:
             lines = open(trace).read().splitlines()
-        if v.get("kind") == "domain":
-            ctx.note_inconclusive("random driver produced a configuration outside the modelled domain (line %s)" % v["line"])
-            continue
         scen = []
         i = v["line"] - 1
         while i >= 0:
@@ -385,26 +419,35 @@ def run(ctx):
             why = classify(v.get("want"), v.get("got"), cf.get("limit"))
         else:
             why = v["kind"]
-        # one report per (scenario, clause): later cycles of a cumulative stream repeat the first deviation
-        k = (v.get("sc"), v["kind"])
+        # one report per (scenario, clause, class): later cycles of a cumulative stream repeat the first deviation
+        k = (v.get("sc"), v["kind"], why)
         if k in reported:
             continue
         reported.add(k)
-        sig = dict(cfg_sig(cf), dir="random", why=why, at=v["kind"])
+        sig = dict(cfg_sig(cf), dir="random", why=why, at=v["kind"], reuse=(scen[0].get("rep", 0) % 2 == 1))
         ctx.violation(sig, replay={"scenario": scen, "want": v.get("want"), "got": v.get("got"), "fed": v.get("fed")})
     for need in ("collections_with_overflow_point", "metrics_at_limit", "scenarios_with_filter", "edges_with_overflow_point",
-                 "edges_with_views"):
+                 "edges_with_views", "scenarios_wildcard_name_fits_other_criterion_rejects",
+                 "scenarios_exact_name_fits_other_criterion_rejects", "scenarios_views_with_identical_streams",
+                 "scenarios_views_with_distinct_streams", "scenarios_case_variant_stream_names_one_identity",
+                 "scenarios_same_name_distinct_streams", "scenarios_scope_criterion", "scenarios_sibling_instruments"):
+        if only:
+            break
         if not counters.get(need):
             ctx.note_inconclusive("vacuity: counter %s is zero" % need)
     ctx.assumptions += [
         "attribute values 1..n stand for their representatives (int / string / float / slice) chosen by the harness",
         "measurement values are small integers (exact in float64 instruments)",
-        "configurations with conflicting stream identities (same name/kind/number, different aggregation or filter) "
-        "and aggregations an instrument kind cannot use are outside the modelled domain",
+        "outside the modelled domain (InDomain in CardModel.tla, re-evaluated by TLC on every configuration): two streams "
+        "with one identity but different aggregation or filter, aggregations an instrument kind cannot use, two distinct "
+        "streams a reader cannot tell apart (differ in instrument kind only), a renaming view with a wildcard name "
+        "(the SDK may fail fast), a name criterion that fits an instrument only up to letter case",
+        "stream and instrument names are compared case-insensitively (the harness lower-cases reported names); which "
+        "casing is exported is not constrained",
         "observations of asynchronous instruments reach the aggregators in the order the callback makes them",
         "pre-computed sums under delta report the change against the same *reported* set of the preceding cycle "
         "(C08 rule applied after the limit); totals are only required to be conserved for cumulative ones",
     ]
-    ctx.extra["rule"] = ("edges: every transition of Cardinality.tla for the configuration families limit/views; "
+    ctx.extra["rule"] = ("edges: every transition of Cardinality.tla for the configuration families limit/views/select/ident; "
                          "H: every operation sequence up to hsteps; random: seeded scenarios; a case is distinct by "
                          "(configuration, operation sequence)")
